@@ -59,7 +59,7 @@ Print Assumptions C03_restart_reads_storage.
 
 (* (4) RocksStorage (the storage used in production, with cached firstIndex/lastIndex fields), for ALL
        sequences of FirstIndex / LastIndex / Term / Entries / ApplySnapshot / CreateSnapshot / Compact /
-       Append (appends being contiguous batches): the key space stays strictly ordered and non-empty, a
+       Append (appends being contiguous batches) / process restart (fresh storage object, same engine): the key space stays strictly ordered and non-empty, a
        cached first index is always (first key + 1), a cached last index is always the last key *)
 Theorem C03_rocks_cache_invariant : forall ops, Forall rop_ok ops -> rs_inv (fold_left rs_step ops rs_new).
 Proof. exact rs_cache_invariant. Qed.
@@ -89,6 +89,19 @@ Theorem C03_memory_term_spec : forall s off i, wf_ms s -> ms_offset s = Ok off -
      exists e, nnth (i - off) (ms_ents s) = Some e /\ eindex e = i /\ ms_term s i = Ok (eterm e)).
 Proof. exact ms_term_spec. Qed.
 Print Assumptions C03_memory_term_spec.
+
+(* (7) RocksStorage.Append of a contiguous batch = truncate-and-append on the ordered key space, with the
+       compacted-prefix shortcut: keys below the first written index are kept, everything from it on is
+       exactly the written entries (the old tail is gone); snapshot meta untouched *)
+Theorem C03_rocks_append_spec : forall s e0 r s', rs_inv s -> contig (eindex e0) (e0 :: r) ->
+  rs_append s (e0 :: r) = Ok s' ->
+  exists first, recomputed_first s = Some first /\ rs_snapi s' = rs_snapi s /\ rs_snapt s' = rs_snapt s /\
+    (eindex e0 + nlen (e0 :: r) - 1 < first -> rs_db s' = rs_db s) /\
+    (first <= eindex e0 + nlen (e0 :: r) - 1 ->
+       rs_db s' = filter (fun e => eindex e <? N.max (eindex e0) first) (rs_db s)
+                  ++ filter (fun e => first <=? eindex e) (e0 :: r)).
+Proof. exact rs_append_spec. Qed.
+Print Assumptions C03_rocks_append_spec.
 
 (* ====================================================================================== *)
 (* The property over all schedules, on the abstract protocol of coq/RaftAbs (Model.v: per-node term /
@@ -170,7 +183,7 @@ Proof. vm_compute. reflexivity. Qed.
 Example C03_ex_rocks_ops :
   (* a reachable RocksStorage state with both caches filled, after append / compact / append *)
   let ops := [RAppend [mkE 1 1 5 9; mkE 1 2 6 9; mkE 1 3 7 9]; RFirst; RLast; RCreateSnap 2; RCompact 2;
-              RAppend [mkE 2 3 8 9; mkE 2 4 9 9]; RLast] in
+              RAppend [mkE 2 3 8 9; mkE 2 4 9 9]; RLast; RReopen; RLast] in
   Forall rop_ok ops /\ rs_lc (fold_left rs_step ops rs_new) = 4 /\
   recomputed_first (fold_left rs_step ops rs_new) = Some 3.
 Proof. split; [repeat constructor; vm_compute; repeat split|]. vm_compute. split; reflexivity. Qed.
